@@ -40,7 +40,7 @@ func init() {
 
 func init() {
 	Properties["C07"] = PropSpec{
-		Rules:       []Rule{NilRule(nil), Bounds(nil)},
+		Rules:       []Rule{NilRule(nil), Bounds(nil), Dyn("D-DYN", []DynEntry{{Func: "(*SchemaValidator).Validate", DataArg: 1}}, jsonDomain, "JSON value domain")},
 		Explanation: "(being extended) NIL: every dereference of a value that may be nil is dominated by a nil test of the same value or access path.",
 		NotDecided:  "Termination; panics inside dependencies.",
 		Assumptions: []string{trustDeps},
